@@ -31,6 +31,12 @@ CHECKS = {
     "C12": dict(engine="recipe", ref="4 C12", text="TLC checks RoundTrip (Load(Export(store)) = store) on every reachable store of Recipe.tla; for every emitted transition the real recipe is JSON round-tripped into a fresh manager and compared (recipe, resolution); sampled stores are quantized with the original and the reloaded recipe and compared byte for byte; every shipped recipe file is loaded and the default ones re-exported.",
                 note="Same alphabet and bounds as C11; byte identity on one 3-operator model with injected statistics.",
                 tech="TLA+ model checking (TLC) of Recipe.tla (RoundTrip) + spec->code replay"),
+    "C09": dict(engine="calib", ref="4 C09", text="Calib.tla models Quantizer.calibrate() over resumed sessions with statistics kept symbolically as the sequence of folded sample ids; TLC checks ExactFold, Resumes, PrevUntouched and OnlySelected for every selection of operators, every split of the dataset into sessions and every choice of the result to resume from; every complete behaviour is replayed through the real calibrate() and each returned result must equal the moving average of the true per-sample min/max (harness's own interpreter) folded in the predicted order; previous results are compared before/after.",
+                note="3 model shapes (chain, fc+add with a tensor mentioned twice, two inputs/two outputs), datasets of 3 (quick) / 4 (thorough) samples, up to 2 / 3 sessions. float32 moving average, tolerance 1e-5; samples scaled so that one dropped/duplicated/reordered sample moves the result far beyond it.",
+                tech="TLA+ model checking (TLC) of Calib.tla + behaviour-by-behaviour spec->code replay with numeric comparison"),
+    "C10": dict(engine="recipe", ref="4 C10", text="The scope strings the calibrator and the params generator compute for every operator of real models (converter-style names, one and two signatures) enter Recipe.tla as ScopePairs; TLC checks ScopesMatchAlike and SelectionAgrees over the stores reachable with ~45 regex patterns; then for every (model, regex, selector, config) the real calibrate() -> quantize() is run: never missing statistics, operators calibrated = operators quantised = operators the documented resolution selects on the quantization scope, per signature.",
+                note="Regex semantics are Python's re.search; scope strings read from the components' own _get_op_scope. Single-rule recipes (histories of length 1-2).",
+                tech="TLA+ model checking (TLC) of Recipe.tla (SelectionAgrees) + end-to-end spec->code replay"),
     "C17": dict(engine="quantmath", ref="4 C17", text="QuantMath.tla is an exact-rational reference of the quantisation arithmetic written from the TFLite spec; TLC checks the laws of C17 on it for every grid vector and emits expected values which the library's results must match (zero point exactly, either neighbour on an exact tie; scale within 3e-7); integer results observed from the library (all codes under parameters exactly as the library produces them, ascending inputs, per-channel tensors) are judged by TLC (ObservedMath.tla).",
                 note="Grids: ranges a/8 x b/8 (a,b <= 16 quick / 48 thorough), one-sided, tiny; bits 4/8/16; both symmetries; all codes for 4/8 bit. numpy float arithmetic trusted in the float-vs-rational comparison.",
                 tech="TLA+ model checking (TLC) of an exact-rational reference + expected-value replay + TLC evaluation of integer laws on observed results"),
@@ -39,7 +45,7 @@ CHECKS = {
 NA = {
     "C07": "numeric closeness of chained LiteRT integer kernels to float kernels is not a property of any state the quantizer has; TLC has no model of those kernels and an empirical tolerance would either miss errors or raise false alarms (DESIGN 4 C07). Its discrete preconditions are decided under C03/C04/C05/C13.",
 }
-PLANNED = ["C04", "C05", "C06", "C09", "C10", "C13", "C14", "C15", "C16", "C18", "C19"]
+PLANNED = ["C04", "C05", "C06", "C13", "C14", "C15", "C16", "C18", "C19"]
 
 
 def main():
@@ -65,6 +71,8 @@ def main():
            "kind_free_text": "TLA+ spec of materialiser / buffer check / instruction generator / performer + GraphProps predicates + Observed trace spec; Python conformance harness (harness/pipecheck.py)"},
           {"name": "recipe", "path": "/verif/spec/Recipe.tla", "serves_properties": [p for p, c in CHECKS.items() if c["engine"] == "recipe"],
            "kind_free_text": "TLA+ spec of the recipe store and documented resolution; transition replay on RecipeManager"},
+          {"name": "calib", "path": "/verif/spec/Calib.tla", "serves_properties": [p for p, c in CHECKS.items() if c["engine"] == "calib"],
+           "kind_free_text": "TLA+ spec of calibrate() over resumed sessions (symbolic fold sequences); behaviour replay"},
           {"name": "quantmath", "path": "/verif/spec/QuantMath.tla", "serves_properties": [p for p, c in CHECKS.items() if c["engine"] == "quantmath"],
            "kind_free_text": "exact-rational TLA+ reference of the quantisation arithmetic; expected-value replay; ObservedMath.tla"},
       ],
